@@ -3,11 +3,14 @@ package tea
 import (
 	"bytes"
 	"context"
+	"errors"
 	"fmt"
 	"io"
 	"regexp"
 	"strings"
 	"unicode/utf8"
+
+	"github.com/muesli/cancelreader"
 )
 
 // KeyMsg contains information about a keypress. KeyMsgs are always sent to
@@ -564,9 +567,12 @@ loop:
 	for {
 		// Read and block.
 		// A reader may return the last bytes together with the error: they
-		// are input like any other and are handled before the error is.
+		// are input like any other and are handled before the error is. So
+		// is what was held back in case more would follow: when the input
+		// has ended nothing will, unless reading was merely cancelled.
 		numBytes, readErr := input.Read(buf[:])
-		if readErr != nil && numBytes == 0 {
+		if readErr != nil && numBytes == 0 &&
+			(leftOverFromPrevIteration == nil || errors.Is(readErr, cancelreader.ErrCanceled)) {
 			return fmt.Errorf("error reading input: %w", readErr)
 		}
 		b := buf[:numBytes]
@@ -581,7 +587,7 @@ loop:
 		// be more data in the OS buffer ready to be read in, to complete
 		// the last message in the input. In that case, we will retry with
 		// the left over data in the next iteration.
-		canHaveMoreData := numBytes == len(buf)
+		canHaveMoreData := numBytes == len(buf) && readErr == nil
 
 		var i, w int
 		for i, w = 0, 0; i < len(b); i += w {
